@@ -128,7 +128,7 @@ def select_removal(prog, tree, r, tree_fns):
                 continue
             if tgt in r['release']:
                 out.append((c, tgt, True))
-            elif tgt.path in S and S[tgt.path] != {0} and tgt.trait_method() != 'clear' and tgt.path != f.path:
+            elif tgt.path in S and (S[tgt.path] != {0} or tgt.trait_method() == 'clear') and tgt.path != f.path:
                 out.append((c, tgt, False))
         return out
     # raw = releases directly or through a helper that is raw and not exact (least fixpoint)
@@ -250,6 +250,8 @@ def release_summary(prog, f, r, tree_fns, _stack=None):
         contrib = None
         if tgt is not None and tgt in r['release']:
             contrib = {1}
+        elif tgt is not None and tgt.path in paths and tgt.trait_method() == 'clear' and tgt.path != f.path:
+            contrib = {0, 1, 2}        # clear releases whatever the tree holds
         elif tgt is not None and tgt.path in paths and not tgt.is_closure and tgt.trait_method() != 'clear' and tgt.path not in prog.accessors:
             cs = release_summary(prog, tgt, r, tree_fns, _stack)
             if cs != {0}:
@@ -698,6 +700,14 @@ def check_clear(ctx, prog, c, r, store_field):
         elif not (rr.point < stores[0].point or b.cfg.dominates(rr.point[0], stores[0].point[0])):
             problems.append('root is emptied before it is released')
     # the scan: an index range over the tail of the free list [len - n, len), n = number released in the previous pass
+    # the scan reads the child links of slots that were already released: the release function must leave them intact
+    if child_rel:
+        for rf in r['release']:
+            for st in rf.body.stores:
+                fl = st.fields()
+                if fl and fl[-1] in ('left', 'right'):
+                    problems.append('the scan reads the child links of released slots, but the release function %s overwrites %s of the slot it releases: every slot below the root is lost' % (rf.name, fl[-1]))
+                    break
     loops = b.cfg.loops()
     outer = [h for h, body in loops.items() if all(cr[0].point[0] in body for cr in child_rel)]
     if child_rel:
